@@ -92,6 +92,9 @@ def _fault_actions(case):
 def expects_error(case):
     """Does a worker raise or die in this case?  (independent of the Lean model)"""
     ncpu, n = case['ncpu'], case['n']
+    if case.get('ncpu_values') is not None:
+        _, req = _ncpu_impl({'cfg': case['ncpu_values'][0], 'local': case['ncpu_values'][1]})
+        return not _NCPU_OK(req)
     if ncpu < 1:
         return True     # not a worker count: has to be rejected
     if any(0 <= int(i) < n for i in case.get('boom') or []):
@@ -99,12 +102,17 @@ def expects_error(case):
     if ncpu == 1:
         return False
     ks = chunk_sizes(n, ncpu)
+    either = False
     for pid, where, task, a, v, delayed in _fault_actions(case):
         if 1 <= pid < ncpu and (where == 'queued' or (where == 'task' and task is not None and task < ks[pid])):
             return True
         if 1 <= pid < ncpu and where == 'done' and (a == 'raise' or v != 0):
             return True
-    return False
+        if 1 <= pid < ncpu and where == 'done':
+            # os._exit(0) after the sentinel was queued: a clean exit if the feeder thread has written the sentinel by then
+            # (normally within the delay), a death before the end of the log records otherwise — both are legitimate
+            either = True
+    return None if either else False
 
 
 PIPE_BUF = 65536
@@ -118,7 +126,7 @@ def fault_class(case):
         pre = 'repeat-'
     elif case['n'] > 1000:
         pre = 'large-'
-    elif case.get('api') == 'do_trials' and case['n'] == 0:
+    elif case.get('api') == 'do_trials' and case['n'] == 0 and not (case.get('ncpu_values') is not None and expects_error(case)):
         pre = 'n0-'
     elif case['ncpu'] < 1:
         pre = 'bad-ncpu-'
@@ -164,7 +172,7 @@ def model_fault_specs(case):
             elif where == 'done':
                 code = 1 if a == 'raise' else v
                 # exit after the sentinel; without a delay the sentinel may not have reached the pipe
-                tok = ['%d:xs:%d' % (pid, code)] if delayed else ['%d:xs:%d' % (pid, code), '%d:xq:%d:1' % (pid, code)]
+                tok = ['%d:xs:%d' % (pid, code), '%d:xq:%d:1' % (pid, code)]
             else:
                 code = 1 if a == 'raise' else v
                 # without a delay the result may or may not have reached the pipe before the exit
@@ -254,10 +262,10 @@ def _check_outcome(case, out, what):
         return None
     exp_err = expects_error(case)
     if out['out'] == 'error':
-        if not exp_err:
+        if exp_err is False:
             return 'spurious-error', '%s raised %s: %s although no worker failed' % (what, out.get('etype'), out.get('msg'))
         acc = ACCIDENTAL & set(out.get('mro') or [out.get('etype')])
-        if acc and case['ncpu'] >= 1:      # an illegal worker count is outside the quantifier: any exception is a rejection
+        if acc and case['ncpu'] >= 1 and case.get('ncpu_values') is None:      # an illegal worker count is outside the quantifier: any exception is a rejection
             return 'accidental-error', '%s ended with %s: %s — an accident of the implementation, not a reported worker failure' % (
                 what, out.get('etype'), out.get('msg'))
         return None
@@ -401,7 +409,7 @@ def partial_write_case():
     c = make_case(2, 4, fault={'pid': 1, 'point': 'queued', 'kind': 'exit', 'code': 3, 'flushed': True, 'delay': 0.1}, rsize=200000,
                   logs=False, variant='partial-write')
     c['msleep'] = {0: 0.5}
-    return dict(c, watchdog=5.0)
+    return dict(c, watchdog=3.5)
 
 
 ORACLES = {'pmap': o_pmap, 'corr': o_corr, 'split': o_split}
@@ -454,6 +462,13 @@ def gen_forms(rng, k):
     while len(forms) < k:
         forms.append({d: rng.choice(v) for d, v in FORM_DIMS.items()})
     return forms[:max(k, width)]
+
+
+def _NCPU_OK(req):
+    """is the (modelled) value pair a legal worker count?  (python-side rule, independent of the driver)"""
+    _, c, l = req.split(' ')
+    v = c if l == 'none' else l
+    return v == 'none' or (v.startswith('int:') and int(v[4:]) >= 1)
 
 
 def o_ncpu(ctx, case):
@@ -688,6 +703,14 @@ def run(ctx):
             c = make_case(ncpu, NT, seed=19, variant='late-exit')
             c['plan'] += [entry('done', p, None, ('sleep', SLOW)) for p in range(1, ncpu)]
             groups.append([c])
+    # Analysis.do_trials with every kind of ncpu setting (get_ncpu) and 0 / some trials: model op `trials`
+    trial_cases = []
+    for cv, lv in [('none', 'none'), ('int:2', 'none'), ('none', 'int:3'), ('int:2', 'int:1'), ('none', 'int:0'), ('int:-1', 'none'),
+                   ('none', 'float'), ('npint', 'none'), ('none', 'bool:1'), ('str', 'int:2'), ('none', 'str')]:
+        for n in (0, 3):
+            c = dict(make_case(2, n, seed=boundary_seed(n, 23), api='do_trials', variant='do_trials-ncpu'), ncpu_values=[cv, lv])
+            trial_cases.append(c)
+            groups.append([c])
     # do_trials without trials; worker counts that are none
     for ncpu in (1, 2):
         groups.append([make_case(ncpu, 0, seed=3, api='do_trials', variant='do_trials-n0')])
@@ -769,6 +792,34 @@ def run(ctx):
     zero = [b for b in ALL_BRANCHES if not ctx.counters.get('model-branch:' + b)]
     ctx.extra['counts'] = {'zero_hit_model_branches': zero, 'unreachable_by_theorem': UNREACHABLE_BRANCHES,
                            'unreachable_hit': [b for b in UNREACHABLE_BRANCHES if ctx.counters.get('model-branch:' + b)]}
+    # ---- Analysis.do_trials: model op `trials` (get_ncpu + parallel map + result_list[0].dtype) vs the real method
+    tl_lines = ['trials %s %d' % (_ncpu_impl({'cfg': c['ncpu_values'][0], 'local': c['ncpu_values'][1]})[1][7:], c['n']) for c in trial_cases]
+    for c, mod in zip(trial_cases, ctx.driver('C09', tl_lines)):
+        o = by_id[id(c)]
+        if o['out'] == 'skipped':
+            continue
+        imp = ('done:%d' % len(o['res'])) if o['out'] == 'done' else (o.get('etype') if o['out'] == 'error' else o['out'])
+        want = ('done:%d' % (0 if mod == 'done:-' else len(mod[5:].split(',')))) if mod.startswith('done:') else mod
+        ctx.count('corr:do_trials:' + want.split(':')[0])
+        if imp != want:
+            ctx.violation('corr', c, 'do_trials(n=%d) with ncpu settings %r: implementation %s, model %s' % (c['n'], c['ncpu_values'], imp, want),
+                          kind='correspondence', relation='outcome / exception class', impl_output=imp, model_output=want,
+                          signature='C09/corr/do_trials', no_failing_input=True)
+    # ---- status queue: Model/ParStatus (pipe capacity 64 KiB / 23 B per record) vs the large interactive runs
+    st_cases = [c for c in flat if c.get('interactive') and c.get('summary')]
+    st_lines = ['status 1 2849 %d 1' % max(chunk_sizes(c['n'], c['ncpu'])[1:]) for c in st_cases] + ['status 1 2849 4000 0', 'status 0 2849 4000 0']
+    st_ans = ctx.driver('C09', st_lines)
+    if st_ans[-2:] != ['stuck', 'exits']:
+        raise MachineryError('ParStatus model: %r' % st_ans[-2:])
+    for c, mod in zip(st_cases, st_ans):
+        o = by_id[id(c)]
+        if o['out'] == 'skipped':
+            continue
+        ctx.count('corr:status-queue')
+        imp = 'exits' if o['out'] == 'done' else 'stuck' if o['out'] == 'timeout' else o['out']
+        if imp != mod and o['out'] != 'timeout':       # a hang is reported by the pmap oracle
+            ctx.violation('corr', c, 'interactive run with %d tasks: implementation %s, status-queue model %s' % (c['n'], imp, mod),
+                          kind='correspondence', relation='exits', impl_output=imp, model_output=mod, signature='C09/corr/status', no_failing_input=True)
     # ---- compare
     n_dis = 0
     for g in groups:
